@@ -216,4 +216,31 @@ theorem lsq_two_points (x1 x2 y1 y2 : ℝ) (hx : x1 ≠ x2) :
     · exact absurd h hne
     · linarith
 
+/-- **the fitted line is the least-squares line**: no other line has a smaller sum of squared residuals
+(this is what `np.polyfit( S, log10( N ), 1 )` is documented to return; the closed form of the model is
+compared with it numerically, and is the minimiser by this theorem) -/
+theorem lsq_minimises (xs ys : List ℝ) (hl : xs.length = ys.length)
+    (hdet : (xs.length : ℝ) * (xs.map (fun x => x * x)).sum - xs.sum * xs.sum ≠ 0) (hn : xs ≠ []) (a' b' : ℝ) :
+    ((xs.zip ys).map (fun p => (p.2 - ((lsq xs ys).1 * p.1 + (lsq xs ys).2)) ^ 2)).sum ≤
+    ((xs.zip ys).map (fun p => (p.2 - (a' * p.1 + b')) ^ 2)).sum := by
+  obtain ⟨n1, n2⟩ := lsq_normal xs ys hl hdet hn
+  generalize (lsq xs ys).1 = a at n1 n2 ⊢
+  generalize (lsq xs ys).2 = b at n1 n2 ⊢
+  generalize xs.zip ys = ps at n1 n2 ⊢
+  -- S(a', b') = S(a, b) + 2 (a - a') Σ x r + 2 (b - b') Σ r + Σ ((a - a') x + (b - b'))²
+  have key : ∀ ps : List (ℝ × ℝ),
+      (ps.map (fun p => (p.2 - (a' * p.1 + b')) ^ 2)).sum =
+        (ps.map (fun p => (p.2 - (a * p.1 + b)) ^ 2)).sum
+        + 2 * (a - a') * (ps.map (fun p => p.1 * (p.2 - (a * p.1 + b)))).sum
+        + 2 * (b - b') * (ps.map (fun p => p.2 - (a * p.1 + b))).sum
+        + (ps.map (fun p => ((a - a') * p.1 + (b - b')) ^ 2)).sum := by
+    intro ps
+    induction ps with
+    | nil => simp
+    | cons p ps ih => simp only [List.map_cons, List.sum_cons, ih]; ring
+  rw [key ps, n1, n2]
+  have hnn : 0 ≤ (ps.map (fun p => ((a - a') * p.1 + (b - b')) ^ 2)).sum :=
+    List.sum_nonneg (by intro x hx; obtain ⟨p, _, rfl⟩ := List.mem_map.mp hx; positivity)
+  linarith
+
 end FF
